@@ -17,7 +17,7 @@ using namespace vr;
 #define NSUB 3
 #endif
 static RealWorld* W;
-#if defined(MODE_SUBMIT) || defined(MODE_LIMITS)
+#if defined(MODE_SUBMIT) || defined(MODE_LIMITS) || defined(MODE_VBKTIE) || defined(MODE_TIMELY) || defined(MODE_PAIR)
 // link-level oracles (spec: 'override'): signatures and address derivation answer "valid"; everything else is the real code
 namespace altintegration {
 bool Address::isDerivedFromPublicKey(Slice<const uint8_t>) const { return true; }
@@ -27,7 +27,7 @@ bool verify(Slice<const uint8_t>, Signature, PublicKey) { return true; }
 }  // namespace secp256k1
 }  // namespace altintegration
 // the per-type maps, the VBK relations and isKnown describe the same SET (C13): a resubmitted connected payload may sit twice in
-// its relation (equal content, adjacent because the relation is ordered / appended), which is counted once here; what such a
+// its relation (equal content), which is counted once here; what such a
 // duplicate may NOT do is show up in generatePopData (checks 14, 16) or survive removeAll (checks 20..23)
 static void checkViews(MemPool& mp, int base) {
   size_t relAtvs = 0, relVtbs = 0;
@@ -35,9 +35,8 @@ static void checkViews(MemPool& mp, int base) {
     auto& r = *kv.second;
     verif_check(r.header && r.header->getId() == kv.first, base);
     verif_check(mp.vbkblocks_.count(kv.first) == 1, base + 1);
-    const ATV* lastA = nullptr; const VTB* lastV = nullptr;
-    for (auto& a : r.atvs) { relAtvs += !(lastA && lastA->getId() == a->getId()); lastA = a.get(); verif_check(mp.stored_atvs_.count(a->getId()) == 1 && a->blockOfProof.getId() == kv.first, base + 2); }
-    for (auto& v : r.vtbs) { relVtbs += !(lastV && lastV->getId() == v->getId()); lastV = v.get(); verif_check(mp.stored_vtbs_.count(v->getId()) == 1 && v->containingBlock.getId() == kv.first, base + 3); }
+    for (auto& a : r.atvs) { bool seen = false; for (auto& o : r.atvs) { if (o.get() == a.get()) break; seen = seen || o->getId() == a->getId(); } relAtvs += !seen; verif_check(mp.stored_atvs_.count(a->getId()) == 1 && a->blockOfProof.getId() == kv.first, base + 2); }
+    for (auto& v : r.vtbs) { bool seen = false; for (auto& o : r.vtbs) { if (o.get() == v.get()) break; seen = seen || o->getId() == v->getId(); } relVtbs += !seen; verif_check(mp.stored_vtbs_.count(v->getId()) == 1 && v->containingBlock.getId() == kv.first, base + 3); }
   }
 #ifdef DBG
   fprintf(stderr, "views: relAtvs=%zu stored=%zu relVtbs=%zu storedv=%zu rel=%zu vbk=%zu\n", relAtvs, mp.stored_atvs_.size(), relVtbs, mp.stored_vtbs_.size(), mp.relations_.size(), mp.vbkblocks_.size());
@@ -54,8 +53,10 @@ static uint64_t mixh(uint64_t h, uint64_t v) { h ^= v + 0x9e3779b97f4a7c15ull + 
 static uint64_t treesDigest() {
   AltBlockTree& t = *W->alt;
   uint64_t sum = 0;
-  for (auto* b : t.getBlocks()) sum += mixh(mixh(3, b->getHash()[0]), b->getStatus() & 0x7ff);
-  for (auto* b : t.vbk().getBlocks()) sum += mixh(mixh(5, b->getHash().data()[23]), (b->getStatus() & 0x7ff) * 16 + b->refCount());
+  // validity LEVEL raises (e.g. a fork block reaching BLOCK_CAN_BE_APPLIED while the temporary block is validated) are monotone bookkeeping, not a view: FAILED bits, ACTIVE and DELETED are compared
+  const uint32_t M = BLOCK_FAILED_MASK | BLOCK_ACTIVE | BLOCK_DELETED;
+  for (auto* b : t.getBlocks()) sum += mixh(mixh(3, b->getHash()[0]), b->getStatus() & M);
+  for (auto* b : t.vbk().getBlocks()) sum += mixh(mixh(5, b->getHash().data()[23]), (uint64_t)(b->getStatus() & M) * 16 + b->refCount());
   sum = mixh(sum, t.vbk().getBestChain().tip()->getHash().data()[23]);
   sum = mixh(sum, t.getBestChain().tip()->getHash()[0]);
   sum = mixh(sum, t.btc().getBlocks().size());
@@ -209,10 +210,10 @@ extern "C" __attribute__((noinline)) void h_mempool() {
   VTB V = makeValidVTB(w, 2, 3, 1, 2);                              // in VBK 4 (BTC 2)
   ATV A2 = makeValidATV(w, 1, 4, 3);                                // in VBK 5
   { ValidationState st;
-    verif_check(mp.submit<VbkBlock>(w.vbkById[2], true, st).isAccepted(), 2);
-    verif_check(mp.submit<ATV>(A1, true, st).isAccepted(), 3);
-    verif_check(mp.submit<VTB>(V, true, st).isAccepted(), 4);
-    verif_check(mp.submit<ATV>(A2, true, st).isAccepted(), 5); }
+    verif_check(mp.submit<VbkBlock>(w.vbkById[2], true, st).isValid(), 2);
+    verif_check(mp.submit<ATV>(A1, true, st).isValid(), 3);
+    verif_check(mp.submit<VTB>(V, true, st).isValid(), 4);
+    verif_check(mp.submit<ATV>(A2, true, st).isValid(), 5); }
   size_t fullSize;
   { PopData all; all.context = {w.vbkById[2], w.vbkById[3], w.vbkById[4], w.vbkById[5]}; all.vtbs = {V}; all.atvs = {A1, A2}; fullSize = all.estimateSize(); }
   size_t ctxOnly;
@@ -249,6 +250,86 @@ extern "C" __attribute__((noinline)) void h_mempool() {
   verif_check(seenVbk <= 4, 17);                                    // no VBK block was offered twice
   if (seenA1 && seenA2 && seenV && seenVbk == 4 && w.ap.mMaxVbkBlocksInAltBlock < 4) verif_cover(2);
   verif_observe((uint64_t)seenVbk * 8 + seenA1 * 4 + seenA2 * 2 + seenV);
+#elif defined(MODE_VBKTIE)
+  // the ALT tree's VBK tree holds two equal-work forks (3 and 4 on 2, first seen = 3 is best); the pool holds a block extending one of
+  // them.  generatePopData applies it on a temporary block (the VBK best chain may move) and must put everything back (C12).
+  addAltHeader(w, 2, 1);
+  mineVbk(w, 1); mineVbk(w, 2); mineVbk(w, 2);                      // VBK 2, 3 (on 2), 4 (on 2)
+  uint8_t ext = (uint8_t)verif_choice(3, 4);
+  mineVbk(w, ext);                                                   // VBK 5 on the best fork (3) or on the other one (4)
+  { PopData pd; pd.context = {w.vbkById[2], w.vbkById[3], w.vbkById[4]}; t.acceptBlock(altHash(2), pd); ValidationState s; verif_check(t.setState(altHash(2), s), 1); }
+  verif_check(t.vbk().getBestChain().tip()->getHash() == w.vbkById[3].getHash(), 2);
+  { ValidationState st; verif_check(mp.submit<VbkBlock>(w.vbkById[5], true, st).isAccepted(), 3); }
+#ifdef DBG
+  for (auto* b : t.vbk().getBlocks()) fprintf(stderr, "before vbk %d st=%x rc=%u\n", b->getHash().data()[23], b->getStatus(), (unsigned)b->refCount());
+#endif
+  uint64_t before = treesDigest();
+  PopData pd = mp.generatePopData();
+#ifdef DBG
+  for (auto* b : t.vbk().getBlocks()) fprintf(stderr, "after  vbk %d st=%x rc=%u\n", b->getHash().data()[23], b->getStatus(), (unsigned)b->refCount());
+  fprintf(stderr, "tip %d tips %zu\n", t.vbk().getBestChain().tip()->getHash().data()[23], t.vbk().getTips().size());
+#endif
+  verif_check(treesDigest() == before, 4);                          // incl. the VBK best chain: still the first-seen fork
+  verif_check(t.vbk().getBestChain().tip()->getHash() == w.vbkById[3].getHash(), 5);
+  verif_check(pd.context.size() == 1 && pd.context[0].getHash() == w.vbkById[5].getHash(), 6);
+  addAltHeader(w, 3, 2);
+  t.acceptBlock(altHash(3), pd);
+  ValidationState s3;
+  verif_check(t.setState(altHash(3), s3), 7);
+  verif_check(t.vbk().getBestChain().tip()->getHash() == w.vbkById[5].getHash(), 8);   // now the extended fork really is the best one
+  if (ext == 4) verif_cover(1); else verif_cover(2);
+#elif defined(MODE_TIMELY)
+  // timeliness seen by the mempool == timeliness seen by the tree: an ATV endorsing block E is accepted / offered by the pool on tip T
+  // exactly when a next block carrying it would be valid (T.height + 1 <= E.height + settlement interval) (C19 / C12)
+  for (uint8_t a = 2; a <= 4; a++) { addAltHeader(w, a, (uint8_t)(a - 1)); PopData none; t.acceptBlock(altHash(a), none); }
+  uint8_t T = (uint8_t)verif_choice(2, 4);
+  { ValidationState s; verif_check(t.setState(altHash(T), s), 1); }
+  uint8_t E = (uint8_t)verif_choice(1, T);
+  mineVbk(w, 1);                                                    // VBK 2
+  ATV A = makeValidATV(w, E, 2, 1);                                 // in VBK 3
+  bool timely = (w.height[T] + 1) <= (w.height[E] + (int)w.ap.getEndorsementSettlementInterval());
+  ValidationState st;
+  verif_check(mp.submit<VbkBlock>(w.vbkById[2], true, st).isAccepted(), 2);
+  auto r = mp.submit<ATV>(A, true, st);
+  verif_check(r.status != MemPool::FAILED_STATELESS, 3);
+  verif_check(r.isValid() == timely, 4);                         // the pool's verdict is the tree's verdict
+  PopData pd = mp.generatePopData();
+  bool offered = false; for (auto& a : pd.atvs) offered = offered || a.getId() == A.getId();
+  verif_check(offered == timely, 5);                                // an honest, timely endorsement is offered; an expired one is not
+  // the tree's own verdict on a next block that carries the ATV directly
+  addAltHeader(w, 5, T);
+  { PopData direct; direct.context = {w.vbkById[2], w.vbkById[3]}; direct.atvs = {A}; t.acceptBlock(altHash(5), direct); }
+  ValidationState s5;
+  verif_check(t.setState(altHash(5), s5) == timely, 6);
+  if (timely && w.height[T] + 1 == w.height[E] + (int)w.ap.getEndorsementSettlementInterval()) verif_cover(1);   // the last timely block
+  if (!timely) verif_cover(2);
+#elif defined(MODE_PAIR)
+  // two honest ATVs of two miners endorse the same ALT block with the same fee inside the same VBK block (equal under every ranking
+  // criterion of the relation's ordering): both are kept, offered, and end up as endorsements (C13 / C19)
+  addAltHeader(w, 2, 1);
+  { PopData none; t.acceptBlock(altHash(2), none); ValidationState s; verif_check(t.setState(altHash(2), s), 1); }
+  mineVbk(w, 1);                                                    // VBK 2
+  auto& A1 = *new ATV(); auto& A2 = *new ATV();
+  makeValidATVPair(w, 2, 2, 1, 2, A1, A2);                          // both in VBK 3
+  ValidationState st;
+  verif_check(mp.submit<VbkBlock>(w.vbkById[2], true, st).isAccepted(), 2);
+  bool firstA1 = verif_cbool();
+  verif_check(mp.submit<ATV>(firstA1 ? A1 : A2, true, st).isValid(), 3);
+  verif_check(mp.submit<ATV>(firstA1 ? A2 : A1, true, st).isValid(), 4);
+  if (verif_cbool()) { verif_check(mp.submit<ATV>(A1, true, st).isValid(), 5); verif_cover(2); }      // a resubmission changes nothing
+  checkViews(mp, 100);
+  verif_check(mp.getMap<ATV>().size() == 2, 6);
+  PopData pd = mp.generatePopData();
+  verif_check(pd.atvs.size() == 2 && pd.atvs[0].getId() != pd.atvs[1].getId(), 7);                       // both offered, once each
+  addAltHeader(w, 3, 2);
+  t.acceptBlock(altHash(3), pd);
+  ValidationState s3;
+  verif_check(t.setState(altHash(3), s3), 8);
+  verif_check(t.getBlockIndex(altHash(2))->getEndorsedBy().size() == 2, 9);                              // both miners endorsed the block
+  mp.removeAll(pd);
+  checkViews(mp, 200);
+  verif_check(mp.getMap<ATV>().empty(), 10);                                                              // nothing of them lingers
+  verif_cover(1);
 #elif defined(MODE_STALE)
   w.vp.mOldBlocksWindow = 1;
   mineVbk(w, 1); mineVbk(w, 2); mineVbk(w, 3); mineVbk(w, 4);     // VBK 2..5
